@@ -655,6 +655,49 @@ func genThread(g *c14Gen) {
 	}
 }
 
+// exceptions picks how many of n samples lack the shared frame: boundary-exact around the
+// margin n/32 of cpuProfile (0, 1, margin, margin+1, inside, well beyond).
+func c14Exceptions(r *Rng, n int) (int, string) {
+	margin := n / 32
+	var k int
+	switch r.Intn(7) {
+	case 0:
+		k = 0
+	case 1:
+		k = 1
+	case 2, 3:
+		k = margin
+	case 4:
+		k = margin + 1
+	case 5:
+		k = r.Intn(margin + 1)
+	default:
+		k = margin + 2 + r.Intn(3)
+	}
+	if k > n {
+		k = n
+	}
+	switch {
+	case k == 0:
+		return k, "k=0"
+	case k < margin:
+		return k, "0<k<margin"
+	case k == margin:
+		return k, "k=margin>0"
+	case k == margin+1:
+		return k, "k=margin+1"
+	}
+	return k, "k>margin+1"
+}
+
+func c14Pick(r *Rng, n, k int) map[int]bool {
+	m := map[int]bool{}
+	for len(m) < k && len(m) < n {
+		m[r.Intn(n)] = true
+	}
+	return m
+}
+
 func genCpu(g *c14Gen) {
 	r := g.r
 	big, w64 := r.Bool(), g.w64
@@ -667,25 +710,58 @@ func genCpu(g *c14Gen) {
 	}
 	per := []uint64{1, 100, 1000, 10000, 9999, 1 << 31}[r.Intn(6)]
 	g.w.nat(per)
-	n := g.nrecs()
-	if r.Chance(30) {
-		n = 30 + r.Intn(70)
+	// number of samples: around the multiples of 32 that move the margin n/32
+	var n int
+	switch r.Intn(10) {
+	case 0, 1:
+		n = g.nrecs()
+	case 2:
+		n = 32 + r.Intn(120)
+	default:
+		n = []int{31, 32, 33, 63, 64, 65, 95, 96, 97, 127, 128, 129}[r.Intn(12)]
 	}
 	g.nrec = n
 	g.w.n(n)
-	// signal-handler frame shared by (nearly) all samples
-	sig := g.addr()
-	sig2 := g.addr()
-	mode := r.Intn(4) // 0: none, 1: all share, 2: all but ≤ n/32 share, 3: all but n/32+1 share; two layers sometimes
-	two := r.Chance(40)
-	diff := 0
-	switch mode {
-	case 2:
-		diff = r.Intn(n/32 + 1)
-	case 3:
-		diff = n/32 + 1
+	switch {
+	case n < 32:
+		g.tag("cpu:n<32")
+	case n%32 == 0:
+		g.tag("cpu:n=32m")
+	case n%32 == 31:
+		g.tag("cpu:n=32m-1")
+	case n%32 == 1:
+		g.tag("cpu:n=32m+1")
+	default:
+		g.tag("cpu:n>=32,other")
 	}
-	g.tag(fmt.Sprintf("cpu:sigmode=%d", mode))
+	// Signal-handler frames: fresh addresses (not in the pool), so the number of samples that
+	// share them is exactly what is constructed here. Layer 1 = second frame of the samples as
+	// parsed; layer 2 = second frame after layer 1 has been removed (second iteration).
+	sig, sig2 := uint64(0x7ffe1000), uint64(0x7ffe2000)
+	shared := r.Chance(80)
+	two := shared && r.Chance(50)
+	k1, k2 := 0, 0
+	ex1, ex2 := map[int]bool{}, map[int]bool{}
+	if shared {
+		var t1 string
+		k1, t1 = c14Exceptions(r, n)
+		g.tag("cpu:iter1:" + t1)
+		ex1 = c14Pick(r, n, k1)
+		if two {
+			var t2 string
+			k2, t2 = c14Exceptions(r, n)
+			if r.Bool() {
+				// keep the first layer clean so that the second iteration sits exactly on its boundary
+				ex1 = map[int]bool{}
+				g.tag("cpu:iter2(after clean iter1):" + t2)
+			} else {
+				g.tag("cpu:iter2:" + t2)
+			}
+			ex2 = c14Pick(r, n, k2)
+		}
+	} else {
+		g.tag("cpu:no-shared-frame")
+	}
 	for i := 0; i < n; i++ {
 		cnt := uint64(r.Intn(1000))
 		if r.Chance(5) {
@@ -694,18 +770,45 @@ func genCpu(g *c14Gen) {
 		if bound != 0 {
 			cnt %= bound
 		}
-		st := g.stack(0)
-		if mode != 0 && i >= diff && len(st) >= 1 {
-			// leaf, sig, (sig2,) rest
-			ins := []uint64{sig}
-			if two {
-				ins = append(ins, sig2)
-			}
-			st = append(st[:1], append(ins, st[1:]...)...)
-		}
-		if len(st) > 1 && r.Chance(15) {
-			st[1] = st[0] // duplicated leaf
+		leaf := g.addr()
+		rest := g.stack(0)
+		if len(rest) > 0 && r.Chance(15) {
+			rest[0] = leaf // duplicated leaf (visible once the frames in front of it are gone)
 			g.tag("cpu:dup-leaf")
+		}
+		var st []uint64
+		switch {
+		case !shared:
+			if r.Chance(85) {
+				st = append([]uint64{leaf}, rest...)
+			}
+		case ex1[i]:
+			// a sample that lacks the shared second frame
+			switch r.Intn(4) {
+			case 0:
+				st = nil // empty stack
+			case 1:
+				st = []uint64{leaf} // no second frame at all
+			case 2:
+				if two {
+					st = append([]uint64{leaf, sig2}, rest...) // joins the others in the second iteration
+					break
+				}
+				fallthrough
+			default:
+				st = append([]uint64{leaf, g.addr()}, rest...)
+			}
+		case two && ex2[i]:
+			// shares layer 1 but not layer 2
+			if r.Bool() {
+				st = []uint64{leaf, sig}
+			} else {
+				st = append([]uint64{leaf, sig, g.addr()}, rest...)
+			}
+		case two:
+			st = append([]uint64{leaf, sig, sig2}, rest...)
+		default:
+			st = append([]uint64{leaf, sig}, rest...)
 		}
 		if cnt == 0 && len(st) == 1 && st[0] == 0 {
 			cnt = 1 // would be the end marker
@@ -713,12 +816,15 @@ func genCpu(g *c14Gen) {
 		g.w.nat(cnt)
 		g.addrs(st)
 	}
-	eod := r.Chance(85)
+	// without the end marker the last record ends exactly at the end of the buffer
+	// (the `nstk > len(b)/4` check sits on its boundary for 32-bit words)
+	eod := r.Chance(75)
 	g.w.bool(eod)
 	if eod {
 		g.optMap(60)
 	} else {
 		g.w.n(0)
+		g.tag(fmt.Sprintf("cpu:no-end-marker,w64=%v", w64))
 	}
 }
 
